@@ -88,6 +88,13 @@ def generate(tier, rng):
             for kinds in variants:
                 if any(e[0] in kinds for e in log):
                     yield dict(c, ops=c["ops"][:-1] + [dict(op, faults={"kinds": kinds})])
+    for n0, ops in fc.wide_histories(rng, tier, pre_only=True):
+        fl = rng.choice(["nm", "light"])
+        if any(fc.has_nonnode(o) for o in ops):
+            fl = "nm"
+        c = fc.mk(fl, False, n0, ops, cls=(rng.choice(fc.NM_CLASSES) if fl == "nm" else None))
+        c["loglevel"] = 1
+        yield c
     for _ in range(300 if tier == "quick" else 5000):
         n0 = rng.randrange(3, 7)
         fl = rng.choice(["nm", "light"])
